@@ -425,6 +425,80 @@ Definition proj (w : world) (i : nat) : option pguard :=
   | None => None
   end.
 
+
+(* ------------------------------------------------------------------ histories of real children *)
+(* A history over several REAL children of one start method.  The parent's operations are
+   the `op`s of the world model; in between, the environment moves: a child ends, a child
+   closes its end of the sentinel pipe and goes on running, and events the model says are
+   invisible (a joined process object is garbage collected, an unrelated file is opened;
+   descriptor numbers get reused).  The oracles of the world are not scripted here: before
+   every operation they are SET from the state of each child --
+     running : waitpid(WNOHANG) says "not yet", a blocking waitpid never returns, the
+               sentinel is not ready;
+     orphaned sentinel : the same, but the sentinel is ready (EOF);
+     ended   : waitpid reports (pid, status of the way it ended), the sentinel is ready --
+   and then the proved `step` is applied. *)
+Inductive sop :=
+| SOp (o : op)
+| SEnd (i : nat)
+| SOrphan (i : nat)
+| SNop.
+
+(* the wait status with which the world model is fed for a child that ended by p.
+   fork / spawn: the kernel's status.  forkserver: the parent never sees a wait status
+   (the code comes over the pipe); the world automaton is used as the reference for the
+   cache / liveness / children-set behaviour with the status that decodes to `seen`. *)
+Definition seq_status (m : method) (p : path) : option Z :=
+  match ending_of m p with
+  | EExit n => Some (os_status_exit n)
+  | EKilled s c => Some (os_status_sig s c)
+  | EPipe n => if in_range 0 n 256 then Some (os_status_exit n) else None
+  | ENoPipe => Some (os_status_exit fs_fallback)
+  | EEscape => None
+  end.
+
+Definition seq_oracle (i : nat) (st : Z) (sts : Z) : oracle :=
+  if st =? 0 then mk_or [] (AAns 0 0) [false]
+  else if st =? 1 then mk_or [] (AAns 0 0) []
+  else mk_or [] (AAns (pid_of i) sts) [].
+
+Fixpoint set_oracles (i : nat) (ps : list proc) (stl stss : list Z) : list proc :=
+  match ps, stl, stss with
+  | pr :: r, st :: stl', sts :: stss' =>
+    mk_proc (creator pr) (pop pr) (seq_oracle i st sts) :: set_oracles (S i) r stl' stss'
+  | _, _, _ => ps
+  end.
+
+Fixpoint seq_run (w : world) (stl stss : list Z) (ops : list sop) : list (ores * (list nat * list (option Z))) :=
+  match ops with
+  | [] => []
+  | SOp o :: r =>
+    let w0 := mk_world (cur w) (set_oracles 0 (procs w) stl stss) (children w) in
+    let '(w1, x) := step w0 o in
+    (x, snapshot w1) :: seq_run w1 stl stss r
+  | SEnd i :: r => (ONone, snapshot w) :: seq_run w (upd stl i 2) stss r
+  | SOrphan i :: r =>
+    (ONone, snapshot w) :: seq_run w (upd stl i (match nth_error stl i with Some 2 => 2 | _ => 1 end)) stss r
+  | SNop :: r => (ONone, snapshot w) :: seq_run w stl stss r
+  end.
+
+Fixpoint all_some {A} (l : list (option A)) : option (list A) :=
+  match l with
+  | [] => Some []
+  | None :: _ => None
+  | Some x :: r => match all_some r with Some t => Some (x :: t) | None => None end
+  end.
+
+Definition seq_world (n : nat) : world :=
+  mk_world 100 (map (fun _ => mk_proc 100 None (mk_or [] (AAns 0 0) [false])) (seq 0 n)) [].
+
+Definition seq_model (m : method) (paths : list path) (ops : list sop)
+  : option (list (ores * (list nat * list (option Z)))) :=
+  match all_some (map (seq_status m) paths) with
+  | None => None
+  | Some stss => Some (seq_run (seq_world (length paths)) (map (fun _ => 0) paths) stss ops)
+  end.
+
 (* ------------------------------------------------------------------ correspondence *)
 Definition ores_eqb (a b : ores) : bool :=
   match a, b with
@@ -484,6 +558,7 @@ Inductive case :=
 | CReal (m : method) (p : path) (exitcode : option Z)
         (alive_before none_before : bool) (child_after : bool) (alive_after : bool)
 | CFs (ops : list fsop) (results : list ores)
+| CSeq (m : method) (paths : list path) (ops : list sop) (seen_obs : list obs)
 | CHuman (status : option Z) (is_sig : bool) (num : option Z).
 
 (* the exit paths the property statement speaks about: return, exception, sys.exit(n) with a
@@ -528,6 +603,11 @@ Definition check_case (c : case) : Z :=
                 else if in_statement p || negb (ab && nb && negb ca && negb aa) then 2 else 1
     end
   | CFs ops res => if list_eqb ores_eqb (fs_run (mk_popen 1 None) ops) res then 0 else 2
+  | CSeq m paths ops o =>
+    match seq_model m paths ops with
+    | None => 1
+    | Some mo => if list_eqb obs_eqb mo o then 0 else 2
+    end
   | CHuman s b n =>
     let '(mb, mn) := human s in
     if Bool.eqb mb b && opt_eqb Z.eqb mn n then 0 else 2
@@ -544,5 +624,10 @@ Definition locate_case (c : case) : Z :=
     let a := first_diff Z.eqb (map decode_packed xs) (expand d 0) 0 in
     if a =? 0 then first_diff Z.eqb (map macros_packed xs) (expand m 0) 0 else a
   | CFs ops res => first_diff ores_eqb (fs_run (mk_popen 1 None) ops) res 0
+  | CSeq m paths ops o =>
+    match seq_model m paths ops with
+    | None => 0
+    | Some mo => first_diff obs_eqb mo o 0
+    end
   | _ => 0
   end.
